@@ -42,11 +42,16 @@ Definition wf_create_b (ks : list key) (base : addr -> key -> word) (v : view) (
   | Some x => (av_nonce x =? 0) && (av_code x =? 0) && negb (av_suic x) && all_zero ks (v_stor v a)
   end.
 
+(** executing code: the account has code, or nonce 1 while its init code runs *)
+Definition contract_like (x : aview) : bool := negb (av_code x =? 0) || negb (av_nonce x =? 0).
+
 Definition divides_wei (x : Z) : bool := (0 <=? x) && (x mod WEI =? 0).
 
 (** protocol + the property's side conditions (whole unibi amounts, no overdraft) + the two places
     where upstream geth's object deletion (EIP-158) makes [Exist]-dependent calls differ:
-    SELFDESTRUCT is only executed by accounts with code or nonce, PrepareAccessList starts a tx *)
+    SELFDESTRUCT and SSTORE are only executed by accounts with code or nonce, nonces never decrease
+    and code is set once (so such an account cannot end the transaction empty — an empty account
+    is deleted with its storage by geth), PrepareAccessList starts a tx *)
 Definition wf_step_b (as_ : list addr) (ks : list key) (base : addr -> key -> word) (r : ref) (o : op) : bool :=
   let v := cur r in
   match o with
@@ -55,7 +60,9 @@ Definition wf_step_b (as_ : list addr) (ks : list key) (base : addr -> key -> wo
   | ORevert id => match find_copy id (stack r) with Some _ => true | None => false end
   | OAddBalance a x => divides_wei x
   | OSubBalance a x => divides_wei x && (x <=? match v_acct v a with Some y => av_bal y | None => 0 end)
-  | OSuicide a => match v_acct v a with Some y => negb (av_empty y) | None => false end
+  | OSuicide a | OSetState a _ _ => match v_acct v a with Some y => contract_like y | None => false end
+  | OSetNonce a n => match v_acct v a with Some y => av_nonce y <=? n | None => 0 <=? n end
+  | OSetCode a c => match v_acct v a with Some y => av_code y =? 0 | None => true end
   | OPrepareAL _ _ _ _ => forallb (fun a => negb (v_ala v a)) as_
   | _ => true
   end.
